@@ -24,29 +24,33 @@ VARIABLES st,                  \* "GREET" | "READY" | "LOGIN" | "PASSWORD" | "MA
           rcpts,               \* accepted recipients of the open transaction: Seq([addr, mbox, store])
           boxes,               \* [Mailbox -> Seq(message)]
           maxRcpt,             \* configured maximum number of recipients
-          reply                \* last reply: [cls |-> "ok"|"fail"] or [cls |-> "fail", code, text] for a hook deny
+          reply,               \* last reply: [cls |-> "ok"|"fail"] or [cls |-> "fail", code, text] for a hook deny
+          tls                  \* "off": STARTTLS not configured | "avail": configured, this connection is in the clear | "on": encrypted
 
-smtpvars == <<st, from, rcpts, boxes, maxRcpt, reply>>
+smtpvars == <<st, from, rcpts, boxes, maxRcpt, reply, tls>>
 
 NoSender == [none |-> TRUE]
 Ok   == [cls |-> "ok"]
 Fail == [cls |-> "fail"]
 Deny(code, text) == [cls |-> "fail", code |-> code, text |-> text]
 
-SInit(mr) ==
+SInitT(mr, t) ==
     /\ st = "GREET" /\ from = NoSender /\ rcpts = <<>>
     /\ boxes = [m \in Mailbox |-> <<>>]
     /\ maxRcpt = mr
     /\ reply = Ok                                   \* the 220 banner
+    /\ tls = t
+SInit(mr) == SInitT(mr, "off")
 
 (* a new connection to the same server and store *)
 Connect ==
     /\ st' = "GREET" /\ from' = NoSender /\ rcpts' = <<>> /\ reply' = Ok
+    /\ tls' = IF tls = "on" THEN "avail" ELSE tls      \* a new connection starts in the clear
     /\ UNCHANGED <<boxes, maxRcpt>>
 
 ClearEnvelope == from' = NoSender /\ rcpts' = <<>>
 Keep          == UNCHANGED <<st, from, rcpts, boxes>>
-Answer(r)     == reply' = r /\ UNCHANGED maxRcpt
+Answer(r)     == reply' = r /\ UNCHANGED <<maxRcpt, tls>>
 
 InAuthDialogue == st \in {"LOGIN", "PASSWORD"}
 (* the server is waiting for a command line (not for a credential, not for *)
@@ -69,6 +73,20 @@ Hello(verb, hasArg) ==
          [] st \in {"READY", "MAIL"} /\ verb = "EHLO" ->
                 st' = "READY" /\ ClearEnvelope /\ UNCHANGED boxes /\ Answer(Ok)
          [] OTHER -> Keep /\ Answer(Fail)
+
+(* STARTTLS (RFC 3207).  Offered (EHLO lists it) exactly while it can be    *)
+(* used: configured and the connection still in the clear.  Accepted only   *)
+(* between transactions of a greeted session; the client then negotiates    *)
+(* TLS and the server forgets what it knew about the client: the session    *)
+(* starts over at the greeting, encrypted.  Anywhere else, a second time,   *)
+(* or without configuration it is refused and changes nothing.              *)
+Advertised == tls = "avail"
+StartTLS ==
+    /\ AtPrompt
+    /\ IF st = "READY" /\ tls = "avail"
+       THEN /\ st' = "GREET" /\ ClearEnvelope /\ tls' = "on"
+            /\ reply' = Ok /\ UNCHANGED <<boxes, maxRcpt>>
+       ELSE Keep /\ Answer(Fail)
 
 (* MAIL FROM.  decision.syntax: argument well-formed; .size: declared SIZE  *)
 (* absent or within the limit; .addr: address parses; .hook: answer of the  *)
@@ -153,7 +171,7 @@ Rset ==
 (* NOOP, VRFY: accepted anywhere, no effect *)
 Harmless == AtPrompt /\ Keep /\ Answer(Ok)
 (* unknown verbs, unimplemented verbs, empty / short / garbage lines,       *)
-(* STARTTLS without TLS, unsupported AUTH: refused, no effect               *)
+(* unsupported AUTH: refused, no effect                                     *)
 Refused  == AtPrompt /\ Keep /\ Answer(Fail)
 
 Auth(kind) ==
@@ -169,13 +187,20 @@ Quit ==
 (* The client goes away (at any byte).  Nothing is delivered by that; a    *)
 (* message whose data had been transmitted completely may or may not be    *)
 (* delivered - that is the Body action taken before the cut.               *)
-Cut == st' = "QUIT" /\ UNCHANGED <<from, rcpts, boxes, maxRcpt, reply>>
+Cut == st' = "QUIT" /\ UNCHANGED <<from, rcpts, boxes, maxRcpt, reply, tls>>
 
 (***************************************************************************)
 (* Properties of the contract (checked on the bounded model)               *)
 (***************************************************************************)
 TypeOK == /\ st \in {"GREET", "READY", "LOGIN", "PASSWORD", "MAIL", "DATA", "QUIT"}
           /\ reply.cls \in {"ok", "fail"}
+          /\ tls \in {"off", "avail", "on"}
+(* encryption is never dropped within a connection, is only switched on by  *)
+(* an accepted STARTTLS, and the session then stands at the greeting with   *)
+(* no envelope (nothing learnt in the clear survives)                       *)
+TlsStep == /\ (tls = "on" /\ st' # "GREET") => tls' = "on"
+           /\ (tls # "on" /\ tls' = "on") => (st = "READY" /\ st' = "GREET" /\ from' = NoSender /\ rcpts' = <<>> /\ reply'.cls = "ok")
+           /\ (tls = "off") = (tls' = "off")
 EnvelopeOnlyInTransaction == st \notin {"MAIL", "DATA", "QUIT"} => (from = NoSender /\ rcpts = <<>>)
 DataNeedsRecipient == st = "DATA" => rcpts # <<>>
 RcptCountBounded   == Len(rcpts) <= maxRcpt
